@@ -462,6 +462,7 @@ package core
 // "/cats/{name}" cannot both be declared.
 //@ func (*JApiCore).checkSimilarPaths
 //@   tag C11 C01
+//@   prefer cvc5
 //@   requires core != nil && core.similarPaths != nil
 //@   modifies mapof(core.similarPaths)
 //@   ensures [C11] isnil(ret) ==> (forall i :: 0 <= i && i < len(pp) ==> has(core.similarPaths, lastOff(pp[i].path)))
